@@ -660,7 +660,6 @@ package tree
 //@ func (*sharedEntryAttributes).toJsonInternal
 //@   props C10
 //@   nosafety only which children are rendered is claimed here
-//@   requires s != nil && s.leafVariants != nil && lvOK(s.leafVariants)
 //@   loop 0 invariant the_members_of_a_key_level_are_the_active_children [C10 C08]: $map == callres(filterActiveChoiceCaseChilds, 0)
 //@   loop 1 invariant the_members_of_a_container_are_the_active_children [C10 C08]: $map == callres(filterActiveChoiceCaseChilds, 1)
 
